@@ -35,6 +35,33 @@ BOOST = {
 PARK_TIMEOUT = 120.0
 
 
+def _restore_regions():
+    """Line ranges of every `with` block and every `try ... finally` statement in the tree under test (AST scan at start-up).
+    Override-and-restore of shared state - the usual way a race is introduced - lives in exactly such regions, wherever a
+    change to pandera puts them; the targeted policy makes one deliberate pre-emption per entry into one (see _region_entry)."""
+    import ast
+    out = {}
+    for root, _dirs, files in os.walk(PANDERA_DIR):
+        for fn in files:
+            if not fn.endswith(".py"):
+                continue
+            path = os.path.join(root, fn)
+            try:
+                tree = ast.parse(open(path, encoding="utf-8").read())
+            except (OSError, SyntaxError, ValueError):
+                continue
+            ranges = []
+            for node in ast.walk(tree):
+                if isinstance(node, ast.With) or (isinstance(node, ast.Try) and node.finalbody):
+                    ranges.append((node.lineno, getattr(node, "end_lineno", node.lineno)))
+            if ranges:
+                out[path] = sorted(set(ranges))
+    return out
+
+
+RESTORE_REGIONS = _restore_regions()
+
+
 class SimThread:
     def __init__(self, tid, fn):
         self.tid = tid
@@ -45,6 +72,8 @@ class SimThread:
         self.exc_info = None
         self.windows = []      # stack of window names this thread is currently inside
         self.importing = 0     # depth of import statements in progress in this thread (never pre-empted: module locks)
+        self.region = None     # (file, start, end) of the innermost restore region the thread's current frame was last seen in
+        self.pending = None    # (step at which to pre-empt this thread once, how long the other thread is then left alone)
         self.steps = 0
         self.thread = None
 
@@ -67,6 +96,7 @@ class Scheduler:
         self.error = None
         self.all_done = threading.Event()
         self._replay = None
+        self.hold_until = 0
         if policy["kind"] == "replay":
             self._replay = {int(s): int(t) for s, t in policy["schedule"]}
         if policy["kind"] == "pct":
@@ -148,14 +178,42 @@ class Scheduler:
         others = self.runnable_others(st)
         if not others:
             return
+        if self.policy["kind"] == "targeted":
+            self._region_entry(st, frame)
         target = self._decide(st, others, frame)
         if target is None:
             return
         site = f"{frame.f_code.co_filename[len(kernel.REPO) + 1:] if frame.f_code.co_filename.startswith(kernel.REPO) else 'sim/world.py'}:{frame.f_code.co_name}:{frame.f_lineno}"
         self._switch(st, target, site)
 
+    def _region_entry(self, st, frame):
+        """Targeted policy: when the running thread's frame enters a `with` / `try-finally` region of pandera, plan (with
+        probability 1/2) exactly one pre-emption a few steps later - while the region is presumably still open - after which
+        the other thread is left alone for a while so that it can reach whatever the region protects."""
+        ranges = RESTORE_REGIONS.get(frame.f_code.co_filename)
+        cur = None
+        if ranges:
+            ln = frame.f_lineno
+            for a, b in ranges:
+                if a <= ln <= b:
+                    cur = (frame.f_code.co_filename, a, b)     # innermost = last match (sorted by start)
+        if cur is not None and cur != st.region:
+            self.bump("probe.restore_region_entered")
+            if st.pending is None and self.rng.random() < 0.5:
+                st.pending = (self.step + self.rng.randrange(1, 30), self.rng.choice([40, 300, 2500]))
+        st.region = cur
+
     def _decide(self, st, others, frame):
         kind = self.policy["kind"]
+        if kind == "targeted":
+            if st.pending is not None and self.step >= st.pending[0]:
+                hold = st.pending[1]
+                st.pending = None
+                self.hold_until = self.step + hold
+                self.bump("probe.preempted_inside_restore_region")
+                return others[self.rng.randrange(len(others))]
+            if self.step < self.hold_until:
+                return None
         if kind == "replay":
             to = self._replay.get(self.step)
             if to is None:
